@@ -165,6 +165,15 @@ var apiOps = []apiOp{
 	{name: "DecodeUint32", zeroAlloc: true, run: func(x *opCtx, d []byte) Outcome { p, err := rjson.DecodeUint32(d, &x.tg.u32); return pev(x.tg.u32, p, err) }},
 	{name: "DecodeUint", zeroAlloc: true, run: func(x *opCtx, d []byte) Outcome { p, err := rjson.DecodeUint(d, &x.tg.u); return pev(x.tg.u, p, err) }},
 	{name: "DecodeString", run: func(x *opCtx, d []byte) Outcome { p, err := rjson.DecodeString(d, &x.tg.s, x.scratch); return pev(x.tg.s, p, err) }},
+	{name: "TokenType.String", run: func(x *opCtx, d []byte) Outcome {
+		tt, p, err := rjson.NextTokenType(d)
+		s := tt.String()
+		if len(d) > 0 {
+			// any byte value as a TokenType: most of them have no name
+			s += "|" + rjson.TokenType(d[len(d)-1]).String() + "|" + rjson.TokenType(d[len(d)/2]|0x80).String()
+		}
+		return pev(s, p, err)
+	}},
 	{name: "NestedDescent", takesBuf: true, handler: true, run: func(x *opCtx, d []byte) Outcome {
 		// a handler that recurses through the public traversal functions, one Go call level per
 		// nesting level of the document (user-level recursion: bounded here, it is not the library's)
